@@ -518,7 +518,7 @@ Definition printValue (rec : recT) (env : env) (value : value) (verb : Z) (depth
                       | v => Some v
                       end in
            modify (fun s => set_arg s dyn) ;;;
-           bracket_if (match dyn with Some d => is_safe_value d | None => false end) start_safe_ovr
+           bracket_if (match dyn with Some d => is_safe_value d || is_registered d | None => false end) start_safe_ovr
              (h <- rec (CHandleMethods verb) ;;
               if rbool h then ret tt else kind_part)
          else kind_part)
